@@ -85,10 +85,36 @@ func c07Exec(op string) string {
 			return "bad-op " + c.err.Error()
 		}
 		v, err := mxj.Map(m).ValueForPath(path)
-		if err != nil {
-			return "err " + errKindOf(err)
+		// ValueForPath is the first value of ValuesForPath (any of them under a wildcard), and
+		// the documented not-found error when there is none
+		note := ""
+		vs, verr := mxj.Map(m).ValuesForPath(path)
+		switch {
+		case verr != nil:
+			if err == nil {
+				note = "FIRSTVALUE ValuesForPath fails but ValueForPath succeeds"
+			}
+		case len(vs) == 0:
+			if err == nil {
+				note = "FIRSTVALUE ValuesForPath yields nothing but ValueForPath returned a value"
+			}
+		case err != nil:
+			note = "FIRSTVALUE ValuesForPath yields values but ValueForPath fails: " + oneLine(err.Error())
+		default:
+			found := false
+			for _, x := range vs {
+				if enc(x) == enc(v) {
+					found = true
+				}
+			}
+			if !found || (!hasWildSeg(path) && enc(vs[0]) != enc(v)) {
+				note = "FIRSTVALUE ValueForPath returned " + clip(enc(v), 120) + ", which is not the first value of ValuesForPath " + clip(enc(vs), 200)
+			}
 		}
-		return "ok " + enc(v)
+		if err != nil {
+			return "err " + errKindOf(err) + " | " + note
+		}
+		return "ok " + enc(v) + " | " + note
 	}
 	return "bad-op"
 }
@@ -174,6 +200,12 @@ func c07Judge(op, impl, model string) Verdict {
 		c.mapVal()
 		path := c.str()
 		parts := splitModel(model)
+		ipv := splitModel(impl)
+		if len(ipv) > 1 && ipv[1] != "" {
+			v.OracleFail = ipv[1]
+			v.Sig = "vfp1:firstvalue"
+		}
+		impl = ipv[0]
 		v.CorrOK = impl == parts[0]
 		if !v.CorrOK && hasWildSeg(path) && len(parts) > 1 && strings.HasPrefix(impl, "ok ") {
 			ms, _ := splitTop(parts[1])
